@@ -232,8 +232,10 @@ func newBudget(c *Ctx, quick, thorough int) *budget {
 	return &budget{left: n / c.NShard}
 }
 
+// take: false (and the budget counts as spent) when fewer than n units are left
 func (b *budget) take(n int) bool {
 	if n > b.left {
+		b.left = 0
 		return false
 	}
 	b.left -= n
@@ -303,7 +305,7 @@ func genC05(c *Ctx) {
 	r := c.R
 	c.Timeout = 0
 	// A: one Analyze on a fresh engine, compared field by field with the model
-	bud := newBudget(c, 1200000, 80000000)
+	bud := newBudget(c, 600000, 80000000)
 	for k := 0; !bud.spent() && k < 20000; k++ {
 		size := pickSize(r)
 		p := livePosition(r, size)
@@ -326,7 +328,7 @@ func genC05(c *Ctx) {
 		tagSearchOut(c, "A", out)
 	}
 	// B: value / depth / first move against exhaustive negamax, sort on and off, symmetry de-duplication
-	bud = newBudget(c, 1200000, 80000000)
+	bud = newBudget(c, 600000, 80000000)
 	for k := 0; !bud.spent() && k < 20000; k++ {
 		size := pickSize(r)
 		p := livePosition(r, size)
@@ -358,7 +360,7 @@ func genC05(c *Ctx) {
 		}
 	}
 	// C: histories on one engine, exact (NoSort): related / repeated positions, tiny tables, cancelled calls
-	bud = newBudget(c, 1200000, 80000000)
+	bud = newBudget(c, 700000, 80000000)
 	for k := 0; !bud.spent() && k < 20000; k++ {
 		size := pickSize(r)
 		s := exactCfg(c, size, r.Chance(2, 3))
@@ -420,7 +422,7 @@ func genC05(c *Ctx) {
 		}
 	}
 	// D: histories with sorting / de-duplication: the engine runs silently, its verdicts are checked
-	bud = newBudget(c, 800000, 60000000)
+	bud = newBudget(c, 400000, 60000000)
 	for k := 0; !bud.spent() && k < 20000; k++ {
 		size := pickSize(r)
 		s := cfgSpec{size: size, depth: pickDepth(r, size, c.Thorough()), tbl: tinyTables[r.Intn(len(tinyTables))],
@@ -494,7 +496,7 @@ func analyzeDirect(e *engine, p *tak.Position) ([]tak.Move, int64, ai.Stats) {
 
 func genC16(c *Ctx) {
 	r := c.R
-	bud := newBudget(c, 2500000, 160000000)
+	bud := newBudget(c, 800000, 80000000)
 	for k := 0; !bud.spent() && k < 20000; k++ {
 		size := pickSize(r)
 		precise := r.Chance(1, 2)
@@ -683,6 +685,10 @@ func latticeCfg(c *Ctx, size int) cfgSpec {
 	}
 	if r.Chance(1, 3) {
 		s.rw = []int{1, 5, 50, 1000, 100000}[r.Intn(5)]
+		if r.Chance(1, 3) {
+			s.rs = []int{2, 7, 100, 1000000}[r.Intn(4)]
+			c.Count("cfg.randomize-scale>1")
+		}
 	}
 	if size == 3 && c.Thorough() && r.Chance(1, 10) {
 		s.depth = 7 + r.Intn(9)
